@@ -17,7 +17,7 @@ from .state import State, Decls, Obligation, fresh_name
 
 class Contract:
     def __init__(self, key, params=None, returns='any', requires=(), ensures=(), modifies=(), raises=None,
-                 loops=None, ghost=None, holes=None, assumed=False, note='', result_is=None, frame=True, fresh=False, under=()):
+                 loops=None, ghost=None, holes=None, assumed=False, note='', result_is=None, frame=True, fresh=False, under=(), opaque=()):
         self.key = key
         self.params = params or {}
         self.returns = returns
@@ -36,6 +36,8 @@ class Contract:
         # conditions under which the function is verified; at call sites the postcondition is assumed only when they
         # hold (they are not obligations of the caller): outside them only the type-level contract is assumed
         self.under = list(under)
+        # specification functions that stay folded while this function is verified (their applications are compared as terms)
+        self.opaque = set(opaque)
 
 
 class SpecFn:
@@ -335,7 +337,8 @@ class Engine(ValueOps, ExprOps, CallOps, StmtOps):
             res = self._spec_result(app, sf)
             depth = self.spec_depth.get(name, 0)
             key = ('unfold', app, st.ver)
-            if depth < sf.fuel and key not in self.seq_axioms_done and not getattr(self, 'no_unfold', False):
+            if depth < sf.fuel and key not in self.seq_axioms_done and not getattr(self, 'no_unfold', False) \
+                    and name not in getattr(self, 'opaque', ()):
                 self.seq_axioms_done.add(key)
                 self.spec_depth[name] = depth + 1
                 self.read_log = set()
@@ -872,6 +875,7 @@ class Engine(ValueOps, ExprOps, CallOps, StmtOps):
             self.reset_run()
             self.verifying = key
             self.cur_raises = con.raises
+            self.opaque = con.opaque
             decls = Decls()
             try:
                 st = self.initial_state(con, fi, decls)
@@ -972,7 +976,8 @@ class Engine(ValueOps, ExprOps, CallOps, StmtOps):
         whole = set()
         env_saved = st.env
         famwhole = {}
-        for it in con.modifies:
+        mods = [it.partition(' if ')[0].strip() for it in con.modifies]      # a guarded item may change whenever its guard holds
+        for it in mods:
             if it.startswith('heap:') and '@' in it:
                 a, f = it[5:].split('@', 1)
                 famwhole.setdefault(a, []).append(f)
@@ -996,7 +1001,7 @@ class Engine(ValueOps, ExprOps, CallOps, StmtOps):
                                                        mk_eq(mk_select(arr, 'r'), mk_select(old, 'r')))
             st.oblige(goal, 'frame: attribute %s unchanged outside modifies' % attr, fi.node.lineno, kind='ensures')
         if st.seqh is not None and pre.seqh is not None and st.seqh != pre.seqh:
-            lists = [x for x in con.modifies if x.startswith('list(')]
+            lists = [x for x in mods if x.startswith('list(')]
             excl = []
             for x in lists:
                 l = self.spec_builtin_old_eval(x[5:-1], pre)
@@ -1009,7 +1014,7 @@ class Engine(ValueOps, ExprOps, CallOps, StmtOps):
                                                        mk_eq(mk_select(st.seqh, 'r'), mk_select(pre.seqh, 'r')))
             st.oblige(goal, 'frame: lists unchanged outside modifies', fi.node.lineno, kind='ensures')
         if st.ddom is not None and pre.ddom is not None and (st.ddom != pre.ddom or st.dval != pre.dval):
-            dicts = [x for x in con.modifies if x.startswith('dict(')]
+            dicts = [x for x in mods if x.startswith('dict(')]
             excl = []
             for x in dicts:
                 d = self.spec_builtin_old_eval(x[5:-1], pre)
